@@ -191,6 +191,21 @@ fn gen_c01(seed: u64, _index: u64, tier: Tier) -> ResolvePlan {
         preload.push(rec);
     }
 
+    // a cached alias that leads from a name nobody local owns INTO local data, with
+    // a cached record of the target's name and the asked type beside it: the local
+    // data must win at the alias target too
+    let mut cached_alias_questions: Vec<(String, String)> = Vec::new();
+    if !all_interesting.is_empty() && r.chance(0.4) {
+        for k in 0..r.range(1, 2) {
+            let target = r.pick(&all_interesting).clone();
+            let owner = child_name(&format!("cachedalias{k}"), r.pick(&up_apexes));
+            let (ty, data) = *r.pick(&[("A", "A 198.51.100.7"), ("TXT", "TXT from-cache-beside-alias"), ("AAAA", "AAAA 2001:db8:bad::7")]);
+            preload.push(Rec::new(&owner, &format!("CNAME {target}"), 300));
+            preload.push(Rec::new(&target, data, 300));
+            cached_alias_questions.push((owner, ty.to_string()));
+        }
+    }
+
     // ---- optionally a byzantine upstream
     knobs.local_targets = owned_names.clone();
     if r.chance(0.4) {
@@ -216,7 +231,7 @@ fn gen_c01(seed: u64, _index: u64, tier: Tier) -> ResolvePlan {
         pool.push(child_name("nonexistent", a));
     }
     let nq = r.range(2, 6) as usize;
-    let questions = (0..nq)
+    let mut questions: Vec<QuestionPlan> = (0..nq)
         .map(|_| QuestionPlan {
             gap_ms: *r.pick(&[0u64, 0, 10, 1000, 6000]),
             name: r.pick(&pool).clone(),
@@ -225,6 +240,19 @@ fn gen_c01(seed: u64, _index: u64, tier: Tier) -> ResolvePlan {
             prune_before: false,
         })
         .collect();
+    for (name, ty) in cached_alias_questions {
+        let at = r.below(questions.len() as u64 + 1) as usize;
+        questions.insert(
+            at,
+            QuestionPlan {
+                gap_ms: *r.pick(&[0u64, 0, 10, 1000]),
+                name,
+                qtype: ty,
+                recursive: mode != "authoritative" && r.chance(0.85),
+                prune_before: false,
+            },
+        );
+    }
     ResolvePlan {
         knobs,
         hints_auto: true,
